@@ -20,7 +20,7 @@ ID = "C20"
 LEVEL = "fault_enumeration"
 TECHNIQUE = "crash-point and torn-write enumeration with an uninterrupted-run differential at the HTTP boundary"
 RULE = ("histories of 3-8 stepping requests (run-step with constants / points / {} / no body, run-steps(2), session-results) per instance, 1-3 "
-        "instances, start in {1, 0, 2.5}, dt in {1, .5, .25}; ALL crash points k=1..N; torn writes at truncation classes {0, 1, inside the outer JSON, "
+        "instances, scenarios with and without run-spec overrides, begin-session with and without settings, start in {0,1,2.5,8,9,98} (session clocks crossing 10 and 100), dt in {1, .5, .25}, plus sessions of 420 / 700 steps; ALL crash points k=1..N; torn writes at truncation classes {0, 1, inside the outer JSON, "
         "inside the escaped inner JSON, len-1} via an open() failpoint during the write of request k and via post-hoc truncation; compress off "
         "(the compressed format's lossiness is C19's known finding) plus a lossless-shaped compressed subset; a subset repeated with a really "
         "killed child process. distinct_nontrivial = distinct (history, crash point) pairs in which a setting applied before the crash "
@@ -44,16 +44,22 @@ def gen_cases(tier, seed):
         cases.append(dict(kind="torn", seed=rng.randrange(10 ** 9), ninst=rng.choice([2, 3]), via=["failpoint", "posthoc"][i % 2]))
     for i in range(3 if tier == "quick" else 12):
         cases.append(dict(kind="killed-child", seed=rng.randrange(10 ** 9)))
+    for i in range(2 if tier == "quick" else 8):
+        cases.append(dict(kind="long", seed=rng.randrange(10 ** 9), steps=[420, 700][i % 2]))
     return cases
 
 
 def make_history(rng, compress):
-    from vlib.srv import MG, SC
-    start, dt = rng.choice([("1", "1"), ("0", "0.5"), ("2.5", "0.25"), ("1", "0.5")])
+    from vlib.srv import MG
+    start, dt = rng.choice([("1", "1"), ("0", "0.5"), ("2.5", "0.25"), ("1", "0.5"), ("8", "1"), ("9", "0.5"), ("98", "1")])
     if compress:
         start, dt = "1", "1"
     n = rng.randint(3, 8)
     reqs = []
+    SC = "base" if compress else rng.choice(["base", "base", "fine"])
+    begin = None
+    if not compress and rng.random() < 0.4:
+        begin = {MG: {SC: rng.choice([{"constants": {"rate": 0.8}}, {"points": {"curve": [[0.0, 1.5], [30.0, 1.5]]}}, {"constants": {"cap": 18.0, "rate": 0.3}}])}}
     for i in range(n):
         r = rng.random()
         if compress:
@@ -70,7 +76,7 @@ def make_history(rng, compress):
             reqs.append(("steps", {"numberSteps": 2, "settings": {MG: {SC: {"constants": {"cap": rng.choice([15.0, 60.0])}}}} if rng.random() < 0.5 else {}}))
         else:
             reqs.append(("results", None))
-    return dict(start=start, dt=dt, reqs=reqs)
+    return dict(start=start, dt=dt, reqs=reqs, scen=SC, begin=begin)
 
 
 def send(c, iid, req):
@@ -96,7 +102,7 @@ def canon(x):
 def open_server(tmp, hist, compress):
     from vlib import srv
     from decimal import Decimal as D
-    stop = float(D(hist["start"]) + 30 * D(hist["dt"]))
+    stop = float(D(hist["start"]) + hist.get("horizon", 30) * D(hist["dt"]))
     return srv.make_server(srv.bptk_factory(start=float(hist["start"]), stop=stop, dt=float(hist["dt"])), state_dir=tmp, compress=compress)
 
 
@@ -106,7 +112,10 @@ def start_instances(app, hists):
     ids = []
     for h in hists:
         iid = json.loads(c.post("/start-instance", json={"timeout": {"hours": 4}}).get_data(as_text=True))["instance_uuid"]
-        c.post("/%s/begin-session" % iid, json={"scenario_managers": [srv.MG], "scenarios": [srv.SC], "equations": list(srv.EQS)})
+        body = {"scenario_managers": [srv.MG], "scenarios": [h.get("scen", srv.SC)], "equations": list(srv.EQS)}
+        if h.get("begin"):
+            body["settings"] = h["begin"]
+        c.post("/%s/begin-session" % iid, json=body)
         ids.append(iid)
     return ids
 
@@ -129,10 +138,12 @@ def missing_equation(resp):
         return None
     items = js if isinstance(js, list) else [js]
     for it in items:
-        if isinstance(it, dict) and srv.MG in it and isinstance(it[srv.MG], dict) and srv.SC in it[srv.MG] and "equations" not in it[srv.MG][srv.SC]:
-            missing = [e for e in srv.EQS if e not in it[srv.MG][srv.SC]]
-            if missing:
-                return missing
+        if isinstance(it, dict) and srv.MG in it and isinstance(it[srv.MG], dict):
+            for sc, res in it[srv.MG].items():
+                if isinstance(res, dict) and "equations" not in res:
+                    missing = [e for e in srv.EQS if e not in res]
+                    if missing:
+                        return missing
     return None
 
 
@@ -196,7 +207,8 @@ def run_crash(case, counters):
                 b = json.dumps(canon(want[1]), sort_keys=True).replace("<x>", "<ID>")
                 if got[0] != want[0] or a != b.replace(idsU[i], "<ID>"):
                     return dict(kind="differs-after-restart", crash_point=k, request_index=n, instance=i, request=hists[i]["reqs"][j], got=got, uninterrupted=want,
-                                earlier_requests=[hists[i]["reqs"][jj] for (ii, jj) in order[:k] if ii == i], run=dict(start=hists[0]["start"], dt=hists[0]["dt"])), nts
+                                earlier_requests=[hists[i]["reqs"][jj] for (ii, jj) in order[:k] if ii == i], run=dict(start=hists[0]["start"], dt=hists[0]["dt"]),
+                                scenario=hists[i].get("scen"), begin_settings=hists[i].get("begin")), nts
             for i in range(len(hists)):
                 if influence(hists[i], k, order, i):
                     nts.append("%d|%d|%d" % (case["seed"], i, k))
@@ -361,8 +373,49 @@ def run_killed_child(case, counters):
                 pass
 
 
+def run_long(case, counters):
+    """A long session (hundreds of steps), crash, then more steps: nothing may be missing from the step results."""
+    from vlib import srv
+    import shutil
+    rng = random.Random(case["seed"])
+    hist = dict(start="0", dt="1", horizon=case["steps"] + 20, scen="base", begin=None,
+                reqs=[("steps", {"numberSteps": case["steps"], "settings": {}}), ("step", {"settings": {}}), ("step", None)])
+    tmpU = tempfile.mkdtemp(prefix="c20lu_", dir=".")
+    U = open_server(tmpU, hist, False)
+    try:
+        idsU = start_instances(U, [hist])
+        base = [send(U.test_client(), idsU[0], r) for r in hist["reqs"]]
+    finally:
+        srv.destroy_server(U)
+        shutil.rmtree(tmpU, True)
+    tmp = tempfile.mkdtemp(prefix="c20l_", dir=".")
+    A = open_server(tmp, hist, False)
+    B = None
+    try:
+        ids = start_instances(A, [hist])
+        send(A.test_client(), ids[0], hist["reqs"][0])
+        srv.destroy_server(A)
+        B = open_server(tmp, hist, False)
+        counters["crash_points"] = counters.get("crash_points", 0) + 1
+        for n in (1, 2):
+            got = send(B.test_client(), ids[0], hist["reqs"][n])
+            counters["post_crash_responses_compared"] = counters.get("post_crash_responses_compared", 0) + 1
+            m = missing_equation(got)
+            if m:
+                return dict(kind="equation-missing", after_steps=case["steps"], request_index=n, missing=m, got=str(got)[:200])
+            if got[0] != base[n][0] or json.dumps(canon(got[1]), sort_keys=True) != json.dumps(canon(base[n][1]), sort_keys=True):
+                return dict(kind="differs-after-restart", after_steps=case["steps"], request_index=n, got=str(got)[:200], uninterrupted=str(base[n])[:200], earlier_requests=[])
+        return None
+    finally:
+        if B is not None:
+            srv.destroy_server(B)
+        shutil.rmtree(tmp, True)
+
+
 def classify(w):
     k = w["kind"]
+    if k == "differs-after-restart" and w.get("begin_settings"):
+        return "differs-after-restart:begin-session-settings"
     if k == "differs-after-restart":
         earlier = w.get("earlier_requests", [])
         had_settings = any(isinstance(r[1], dict) and r[1].get("settings") for r in earlier)
@@ -378,6 +431,8 @@ def run_case(case):
             w, nts = run_crash(case, counters)
         elif case["kind"] == "torn":
             w = run_torn(case, counters)
+        elif case["kind"] == "long":
+            w = run_long(case, counters)
         else:
             w = run_killed_child(case, counters)
     except Exception as e:
